@@ -7,6 +7,7 @@
 -/
 import StathamModel.Lemmas.SerOk
 import StathamModel.Lemmas.AccNames
+import StathamModel.Lemmas.ElemBeq
 namespace Statham
 
 def NFSnode (env : Env) (cx : PCtx) (e : Elem) : Prop :=
@@ -261,5 +262,62 @@ end
 theorem ser_ok_names (env : Env) (cx : PCtx) (e : Elem) (h : NFn cx e) (hg : (flagsOf cx (toSchema e)).all = true) :
     ERel env e (D6.valid env ℓ₀ (toSchema e)) :=
   ser_ok_sem env cx e (NFS_of_NFn env cx e h) hg
+
+
+/-! ### the executable reading of `NFn`, sound -/
+
+def nfnNodeBool (cx : PCtx) (e : Elem) : Bool :=
+  if e.cls = .nothing then Elem.same e Elem.nothing
+  else Elem.same (forget (assembleK cx (nodeSKw e.cls e.kw e.props) (nodeKids e))) (forget e)
+
+theorem nfnNodeBool_sound (cx : PCtx) (e : Elem) (h : nfnNodeBool cx e = true) : NFnNode cx e := by
+  unfold nfnNodeBool at h
+  refine ⟨fun hc => ?_, fun hc => ?_⟩
+  · rw [if_pos hc] at h; exact Elem.same_sound _ _ h
+  · rw [if_neg hc] at h; exact Elem.same_sound _ _ h
+
+mutual
+def nfnBool (cx : PCtx) : Elem → Bool
+  | .mk c kw items addI cont props pats addP pn deps els =>
+    nfnNodeBool cx (.mk c kw items addI cont props pats addP pn deps els) &&
+    nfnBoolL cx items && nfnBoolO cx addI && nfnBoolO cx cont && nfnBoolK cx props && nfnBoolK cx pats && nfnBoolO cx addP &&
+    nfnBoolO cx pn && nfnBoolK cx deps && nfnBoolL cx els
+def nfnBoolO (cx : PCtx) : Option Elem → Bool
+  | none => true
+  | some e => nfnBool cx e
+def nfnBoolL (cx : PCtx) : List Elem → Bool
+  | [] => true
+  | e :: es => nfnBool cx e && nfnBoolL cx es
+def nfnBoolK (cx : PCtx) : List (Key × Elem) → Bool
+  | [] => true
+  | (_, e) :: r => nfnBool cx e && nfnBoolK cx r
+end
+
+mutual
+theorem nfnBool_sound (cx : PCtx) : ∀ (e : Elem), nfnBool cx e = true → NFn cx e
+  | .mk c kw items addI cont props pats addP pn deps els, h => by
+    rw [nfnBool] at h
+    simp only [Bool.and_eq_true] at h
+    obtain ⟨⟨⟨⟨⟨⟨⟨⟨⟨h0, h1⟩, h2⟩, h3⟩, h4⟩, h5⟩, h6⟩, h7⟩, h8⟩, h9⟩ := h
+    rw [NFn]
+    exact ⟨nfnNodeBool_sound cx _ h0, nfnBoolL_sound cx items h1, nfnBoolO_sound cx addI h2, nfnBoolO_sound cx cont h3,
+      nfnBoolK_sound cx props h4, nfnBoolK_sound cx pats h5, nfnBoolO_sound cx addP h6, nfnBoolO_sound cx pn h7,
+      nfnBoolK_sound cx deps h8, nfnBoolL_sound cx els h9⟩
+theorem nfnBoolO_sound (cx : PCtx) : ∀ (o : Option Elem), nfnBoolO cx o = true → NFnO cx o
+  | none, _ => by rw [NFnO]; trivial
+  | some e, h => by rw [nfnBoolO] at h; rw [NFnO]; exact nfnBool_sound cx e h
+theorem nfnBoolL_sound (cx : PCtx) : ∀ (l : List Elem), nfnBoolL cx l = true → NFnL cx l
+  | [], _ => by rw [NFnL]; trivial
+  | e :: es, h => by
+    rw [nfnBoolL, Bool.and_eq_true] at h
+    rw [NFnL]
+    exact ⟨nfnBool_sound cx e h.1, nfnBoolL_sound cx es h.2⟩
+theorem nfnBoolK_sound (cx : PCtx) : ∀ (l : List (Key × Elem)), nfnBoolK cx l = true → NFnK cx l
+  | [], _ => by rw [NFnK]; trivial
+  | (k, e) :: r, h => by
+    rw [nfnBoolK, Bool.and_eq_true] at h
+    rw [NFnK]
+    exact ⟨nfnBool_sound cx e h.1, nfnBoolK_sound cx r h.2⟩
+end
 
 end Statham
